@@ -567,6 +567,9 @@ macro_rules! snapshot_impl {
 
 pub static LOCAL_EXEC: std::sync::atomic::AtomicBool = std::sync::atomic::AtomicBool::new(false);
 pub static IS_ASYNC: std::sync::atomic::AtomicBool = std::sync::atomic::AtomicBool::new(false);
+/// the insert buffer is roomy enough for `remove()` (which unwraps try_remove's full-buffer error)
+pub static PLAIN_REMOVE_OK: std::sync::atomic::AtomicBool = std::sync::atomic::AtomicBool::new(false);
+static REMOVE_CALLS: std::sync::atomic::AtomicU64 = std::sync::atomic::AtomicU64::new(0);
 
 /// Drive a future on the executor of this run's flavour.
 thread_local! {
@@ -633,7 +636,14 @@ mod sync_impl {
             }
         }
         fn remove(&self, k: u64) -> Result<(), String> {
-            self.try_remove(&k).map_err(|e| e.to_string())
+            // the panicking shorthand too, where the buffer cannot be full (it unwraps the
+            // full-buffer error of try_remove)
+            if PLAIN_REMOVE_OK.load(Ordering::SeqCst) && REMOVE_CALLS.fetch_add(1, Ordering::SeqCst) % 2 == 1 {
+                SelfTy::remove(self, &k);
+                Ok(())
+            } else {
+                self.try_remove(&k).map_err(|e| e.to_string())
+            }
         }
         fn get(&self, k: u64, hold: u32) -> Option<(Val, Val, u64)> {
             let r = SelfTy::get(self, &k)?;
@@ -704,6 +714,12 @@ mod async_impl {
             }
         }
         fn remove(&self, k: u64) -> Result<(), String> {
+            if PLAIN_REMOVE_OK.load(Ordering::SeqCst) && REMOVE_CALLS.fetch_add(1, Ordering::SeqCst) % 2 == 1 {
+                return match bo_c(SelfTy::remove(self, &k)) {
+                    Some(()) => Ok(()),
+                    None => Err(CANCELLED.into()),
+                };
+            }
             match bo_c(self.try_remove(&k)) {
                 Some(r) => r.map_err(|e| e.to_string()),
                 None => Err(CANCELLED.into()),
@@ -1029,6 +1045,8 @@ pub fn build(cfg: &Cfg) -> Result<Box<dyn Api>, String> {
         }};
     }
     IS_ASYNC.store(cfg.flavor != Flavor::Sync, Ordering::SeqCst);
+    PLAIN_REMOVE_OK.store(cfg.buffer_size >= 32, Ordering::SeqCst);
+    REMOVE_CALLS.store(0, Ordering::SeqCst);
     DECOY_N.store(0, Ordering::SeqCst);
     *DECOY.lock().unwrap_or_else(|e| e.into_inner()) = None;
     let main: Result<Box<dyn Api>, String> = match cfg.flavor {
